@@ -682,6 +682,18 @@ def builtin_method(ex, st, obj, mname, args, kwargs, cx, node, k):
             st2 = st.assume(n_ >= 1, z3.Implies(mx >= 0, n_ <= mx + 1))
             s2, r = ex.new_list(st2, T.lst(STR), n_, z3.Lambda([j_], it_(obj.z, args[0].z, mx, j_)), 'split')
             return k(s2, r)
+        if mname == 'join' and len(args) == 1 and args[0].ty.kind == 'list' and args[0].ty.args[0].kind == 'str':
+            # sep.join(list of str): an (uninterpreted, deterministic) function of the separator, the length and the items
+            f_ = ex.uf('str_join', z3.StringSort(), z3.IntSort(), z3.ArraySort(z3.IntSort(), z3.StringSort()), z3.StringSort())
+            return k(st, SV(STR, f_(obj.z, ex.list_len(st, args[0]), ex.list_arr(st, args[0]))))
+        if mname == 'split' and len(args) == 0:
+            # s.split(): the whitespace-separated words -- a fresh list (possibly empty) whose pieces are an
+            # (uninterpreted, deterministic) function of the string
+            n_ = ex.uf('words_len', z3.StringSort(), z3.IntSort())(obj.z)
+            it_ = ex.uf('words_item', z3.StringSort(), z3.IntSort(), z3.StringSort())
+            j_ = z3.Int('j!words')
+            s2, r = ex.new_list(st.assume(n_ >= 0), T.lst(STR), n_, z3.Lambda([j_], it_(obj.z, j_)), 'words')
+            return k(s2, r)
         if mname == 'isspace':
             f_ = ex.uf('str_isspace', z3.StringSort(), z3.BoolSort())
             return k(st, SV(BOOL, f_(obj.z)))
